@@ -68,6 +68,8 @@ let () =
   port "render_code_span" (fun r -> wr_str (render_code_span (rd_str r)));
   port "link_destination" (fun r -> wr_str (link_destination (rd_str r)));
   port "normalize_title_quotes" (fun r -> wr_str (normalize_title_quotes (rd_str r)));
+  port "strip_backslash" (fun r -> wr_str (strip_backslash (rd_str r)));
+  port "escape_backslashes" (fun r -> wr_str (escape_backslashes (rd_str r)));
   port "wrap_words" (fun r ->
     let md = rd_bool r in let w = rd_z r in let c0 = rd_z r in let c1 = rd_z r in
     let ws = rd_strs r in
